@@ -100,6 +100,21 @@ Definition c04_ok (f : fdecl) (o : call_obs) : bool :=
    (* a result without error executed no failing function *)
    (if co_ok o then negb (existsb (fun e => match exec_err e with Some _ => true | None => false end) (co_events o)) else true)).
 
+(* the error a call returns as a function's own error value was returned by an
+   execution of this operation, or is the memoized error of a RUN-ONCE function
+   that failed in an earlier operation *)
+Definition c04_error_origin (fs : list fdecl) (earlier : list event) (o : call_obs) : bool :=
+  match co_err o with
+  | None => true
+  | Some x =>
+      existsb (fun e => Base.eqb (exec_err e) (Some x)) (co_events o) ||
+      existsb (fun e => match e with
+                        | EExec fid _ _ (Some y) =>
+                            (y =? x) && match find_fn fid fs with Some d => fn_once d | None => true end
+                        | EGen _ _ => true      (* generator errors are not executions *)
+                        | _ => false end) (earlier ++ co_events o)
+  end.
+
 (* ---------- C05 ---------- *)
 Definition c05_premise (fg : fgraph) (cached : list Z) : bool :=
   target_derivable fg cached && (single_input_convs fg || (negb (conv_cyclic fg) && convs_satisfiable fg cached)).
@@ -154,7 +169,8 @@ Definition monitor_call (p : prop_id) (u : universe) (earlier : list event) (f :
         match p with
         | P01 => if c01_ok u f b earlier o then 0 else 56
         | P03 => if c03_ok u f b o then 0 else 58
-        | P04 => if c04_ok f o then 0 else 59
+        | P04 => if negb (c04_ok f o) then 59
+                 else if c04_error_origin (known_funcs f b) earlier o then 0 else 77
         | _ =>
             match full_graph u f b false (oo_tape ob) with
             | Ok (inl fg, _) =>
